@@ -54,6 +54,8 @@ class OpenLocked:
 
     def __exit__(self, exc_type, exc_value, traceback):
         try:
+            # Buffered changes must hit the file before the lock is released.
+            self.fd.flush()
             unlockFile(self.fd)
         finally:
             self.fd.close()
